@@ -50,8 +50,10 @@ func c19Tags(f []string) []string {
 	if len(f[1]) > 1 {
 		limit, _ = strconv.Atoi(f[1][1:])
 	}
+	// region of the former LFU empty-heap panic (fixed in /repo 47ce3e3): only a coverage tag now — a panic here is
+	// reported as VIOLATION
 	if f[1] == "k0" || (f[1][0] == 's' && maxDeclared > limit) {
-		tags = append(tags, "kf:C19-lfu-empty-heap-panic")
+		tags = append(tags, "entry-exceeds-limit")
 	}
 	if f[0] == "f" && interleaved {
 		tags = append(tags, "kf:C19-fs-inplace-partial")
@@ -79,7 +81,7 @@ func c19GenCase(r *Rng) string {
 		pol = "n"
 	case k < 50:
 		kl := 1 + r.Intn(3)
-		if r.Chance(3) {
+		if r.Chance(6) {
 			kl = 0
 		}
 		pol = "k" + strconv.Itoa(kl)
@@ -100,7 +102,7 @@ func c19GenCase(r *Rng) string {
 		if top > 40 {
 			top = 40
 		}
-		if r.Chance(6) { // exceed the size limit (empty-heap panic region) now and then
+		if r.Chance(12) { // exceed the size limit (region of the former empty-heap panic) now and then
 			top = 2*top + 2
 			if top > 60 {
 				top = 60
